@@ -175,8 +175,10 @@ TrHandler ==
 
 (* ---- the call returns --------------------------------------------------- *)
 OkAttrs(m) == << <<"h", m.name>>, <<"code", ToString(m.code)>> >>
-QRespJson(m) == [t |-> "o", f |-> << [k |-> "h", v |-> [t |-> "s", v |-> m.name]],
-                                      [k |-> "code", v |-> [t |-> "n", v |-> ToString(m.code)]] >>]
+QRespJson(m) ==      \* the JSON encoding of the value the echo query handler returns (its declared response type)
+    [t |-> "o", f |-> << [k |-> "h", v |-> [t |-> "s", v |-> m.name]],
+                         [k |-> "code", v |-> [t |-> "n", v |-> ToString(m.code)]] >>
+                      \o (IF m.resp = "QRespB" THEN << [k |-> "extra", v |-> [t |-> "b", v |-> "true"]] >> ELSE <<>>)]
 OutcomeOk(e, m) ==
     IF m.outcome = "ok"
     THEN /\ e.verdict = "ok"
@@ -198,6 +200,22 @@ TrReturn ==
                    E.verdict = "err" /\ E.mark = "" /\ E.err.class \in {"decode", "std"})
     /\ UNCHANGED <<pv, fx>>
 
+
+(* ---- query response metadata (C16) ------------------------------------- *)
+RowSet(e) == {<<e.rows[i].name, e.rows[i].ty>> : i \in 1..Len(e.rows)}
+TrSchemas ==
+    /\ IsEvent("Schemas")
+    /\ stage = "idle"
+    /\ Chk("C16", "response_table_is_available", l, E.verdict = "ok")
+    /\ IF E.part = "contract"
+       THEN /\ Chk("C16", "contract_table_is_the_union_of_its_parts_tables", l, RowSet(E) = EContractResponses(P))
+            /\ Chk("C16", "every_query_appears_once", l, Len(E.rows) = Cardinality(EContractResponses(P)))
+            /\ Chk("C16", "contract_schema_is_the_any_of_of_its_parts", l, E.anyof = Len(P.parts))
+       ELSE /\ Chk("BIND", "schemas_part_exists", l, HasPart(P, E.part))
+            /\ Chk("C16", "each_query_maps_to_the_schema_of_its_declared_response_type", l,
+                   RowSet(E) = EResponses(P.parts[PartIx(P, E.part)]))
+            /\ Chk("C16", "every_query_appears_once", l, Len(E.rows) = Cardinality(EResponses(P.parts[PartIx(P, E.part)])))
+    /\ UNCHANGED <<prog, pv, stage, ep, doc, dec, ran, res, origin, fx>>
 
 (* ---- remote helpers (C10) ------------------------------------------------ *)
 ArgVals(e) == [i \in 1..Len(e.args) |-> e.args[i].json]
@@ -236,7 +254,7 @@ TrRemoteQueryReturn ==
            IF m.outcome = "ok" THEN E.verdict = "ok" /\ E.value = QRespJson(m) ELSE E.verdict = "err")
     /\ UNCHANGED <<prog, pv, stage, ep, doc, dec, ran, res, origin, fx>>
 
-TStep == TrRemoteMsg \/ TrRemoteQueryReturn \/ TrReset \/ TrLists \/ TrEncode \/ TrDeliver \/ TrWrapperDecode \/ TrStructDecode
+TStep == TrSchemas \/ TrRemoteMsg \/ TrRemoteQueryReturn \/ TrReset \/ TrLists \/ TrEncode \/ TrDeliver \/ TrWrapperDecode \/ TrStructDecode
          \/ TrSilentDecode \/ TrHandler \/ TrReturn
 
 (* the design-level invariants of Runtime.tla, evaluated in every state the trace reaches *)
